@@ -231,6 +231,11 @@ impl<T> RawTable<T> {
     #[cfg_attr(feature = "inline-more", inline)]
     pub(crate) fn insert(&mut self, hash: u64, value: T, hasher: impl Fn(&T) -> u64) -> Bucket<T> {
         if self.table.capacity() == self.table.len() {
+            if self.leftovers.as_ref().map_or(false, |lo| lo.table.len() == 0) {
+                // The old table was emptied by `erase`/`replace_bucket_with`, which leave it
+                // around; nothing is left to move, so the resize is over.
+                let _ = self.leftovers.take();
+            }
             assert!(self.leftovers.is_none());
             // Even though this _may_ succeed without growing due to tombstones, handling
             // that case is convoluted, so we just assume this would grow the map.
